@@ -30,7 +30,7 @@ CFG = dict(
         "reference tree mk_tree (RFC 6962 shape) and audit path; the AHtree digest log (coq/Merkle/AHT.v: nodesUpto, "
         "nodesUntil, levelsAt, node(n,l), the Append w,l,k loop, rootAt, highestNode, inclusionProof, consistencyProof, "
         "ResetSize rewinding the sizes over logs that keep their stale tails); uint64 arithmetic modelled in N without "
-        "wrap-around (agrees for sizes < 2^58; at j = 0 the model returns Panic where Go divides by 1<<64); "
+        "wrap-around (agrees for sizes < 2^58; n = 0 never reaches the addressing functions since 172c7ab); "
         "NOT modelled (tie only): the digest/payload caches (read-through; the tie reads the log through them), the "
         "three appendable files and the commit log (C17/C03), Sync/Close/Open, htree level arrays and htree.InclusionProof",
         "hook /repo/embedded/ahtree/verif_hooks_c08.go (build tag verif, add-only): VerifNodesUpto/VerifNodesUntil/"
